@@ -358,7 +358,7 @@ fn kind_variant(kind: usize, slot: usize, pool: &mut Vec<Decl>) -> Variant {
 pub fn enum_configs(thorough: bool) -> Vec<(Option<Rule>, bool, bool, Option<bool>)> {
     let mut v = vec![(None, false, false, None), (Some(Rule::Camel), false, false, None), (None, true, true, None), (Some(Rule::Screaming), false, false, Some(true)), (None, false, false, Some(false))];
     if thorough {
-        for r in [Rule::None, Rule::Lower, Rule::Pascal, Rule::Snake, Rule::Kebab] {
+        for r in [Rule::Lower, Rule::Pascal, Rule::Snake, Rule::Kebab] {
             v.push((Some(r), false, false, None));
         }
         v.push((None, true, false, None));
@@ -392,15 +392,21 @@ pub fn enum_corpus(thorough: bool) -> Vec<Program> {
             out.extend(enum_program(&[a], cfg));
             for b in 0..N_VKINDS {
                 out.extend(enum_program(&[a, b], cfg));
-                if thorough {
-                    for c in 0..N_VKINDS {
+            }
+        }
+    }
+    if thorough {
+        // three variants: every unordered selection of kinds, under two configurations
+        for cfg in [(None, false, false, None), (Some(Rule::Camel), false, true, Some(true))] {
+            for a in 0..N_VKINDS {
+                for b in a..N_VKINDS {
+                    for c in b..N_VKINDS {
                         out.extend(enum_program(&[a, b, c], cfg));
                     }
                 }
             }
         }
-    }
-    if !thorough {
+    } else {
         // a slice of the three-variant enums for the quick tier
         for a in 0..N_VKINDS {
             out.extend(enum_program(&[a, (a + 4) % N_VKINDS, (a + 7) % N_VKINDS], (None, false, false, None)));
